@@ -16,6 +16,8 @@ CHECKS = {
             "deterministic simulation + fault injection; sequence-matching oracle against the sender's attempt log"),
     "C06": ("fault_enumeration", "§4 C06", "two fixed mixed chmux workloads (handshake, port opens, chunked transfers both ways, port batch, pending connect/accept/closed()/recv, idle tail with pings); every frame index x direction x fault kind (sink error, stream error, EOF, silent stall both ways, one-directional stall) is executed under N seeded schedules; oracle = both dispatchers end with Err by timeout+eps, every outstanding and fresh operation errors in bounded virtual time, no orderly end-of-stream is reported, received is a prefix of sent; points beyond the traffic exercise the idle-survival clause (hours of virtual idle time, then a transfer)",
             "deterministic simulation; exhaustive enumeration of transport cut points x fault kinds, seeded schedules per point"),
+    "C11": ("fault_enumeration", "§4 C11", "position enumeration: channel type (raw port, base, remote mpsc with 1-3 senders) x event (all senders dropped, receiver close, receiver drop) x position 0..6 in a stream of 6 messages x inside/outside a message, each under N seeded schedules; oracle = received == completed sends (close / sender drop) or prefix (receiver drop), end-of-stream only after everything, error classification (Closed gracefully / not gracefully, mpsc closed_reason Closed/Dropped), Sending handles acknowledged exactly the received values",
+            "deterministic simulation; exhaustive enumeration of event positions, seeded schedules, reference = completed sends"),
     "C03": ("exploration", "§4 C03", "same runs as C01 plus stalled-receiver runs; oracle = no send/connect pending at quiescence while the receiver consumed everything, credit-conservation probe, zero-cost frame flood detector",
             "deterministic simulation; quiescence-based bounded liveness oracle + credit conservation probe"),
 }
